@@ -36,7 +36,7 @@ impl Property for C15 {
             knobs: Knobs { max_nodes, ..Default::default() },
         };
         match tier {
-            Tier::Quick => vec![mk("trees", 40_000, 30)],
+            Tier::Quick => vec![mk("trees", 300_000, 30)],
             Tier::Thorough => vec![mk("trees", 1_500_000, 30), mk("trees-big", 60_000, 100)],
         }
     }
